@@ -244,6 +244,17 @@ macro_rules! wide_harness {
                                 let mut de = serde_assert::Deserializer::builder().tokens(t).is_human_readable(human).build();
                                 W::deserialize(&mut de).map_err(|e| format!("{e:?}; tokens={shown}"))
                             });
+                            // the same with every struct written as a sequence (visit_seq branch of the struct visitors)
+                            let ser = serde_assert::Serializer::builder().is_human_readable(human).serialize_struct_as(serde_assert::ser::SerializeStructAs::Seq).build();
+                            let rs = self.w.serialize(&ser).map_err(|e| format!("{e:?}")).and_then(|t| {
+                                let shown = format!("{:?}", t);
+                                let mut de = serde_assert::Deserializer::builder().tokens(t).is_human_readable(human).build();
+                                W::deserialize(&mut de).map_err(|e| format!("{e:?}; tokens={shown}"))
+                            });
+                            match rs {
+                                Ok(w3) => { if !(self.w == w3) { chk.fail(Prop::C06, "roundtrip-not-equal enc=tok-structs-as-sequences", String::new()); } }
+                                Err(e) => chk.fail(Prop::C06, &format!("roundtrip-failed enc=tok-{}-structs-as-sequences", if human { "hr" } else { "compact" }), e),
+                            }
                             match r {
                                 Ok(w2) => { if !(self.w == w2) { chk.fail(Prop::C06, "roundtrip-not-equal enc=tok", String::new()); } self.w = w2; }
                                 Err(e) => chk.fail(Prop::C06, &format!("roundtrip-failed enc=tok-{}", if human { "hr" } else { "compact" }), e),
